@@ -1812,3 +1812,127 @@ V("C06", "on_init_runs_inside_the_installation_loop", "fire", "R06.b", (Z, """  
 
     def _resolve_dynamic_deps""", """
     def _resolve_dynamic_deps"""))
+
+# ======================================================================= round f rules
+V("C01", "tuple_length_skipped_for_falsy_values", "fire", "R01.h", (P, "        if val is None and self.allow_None:\n            return\n\n        if not len(val) == length:", "        if not val and self.allow_None:\n            return\n\n        if not len(val) == length:"))
+V("C01", "benign_tuple_length_none_test_reordered", "benign", None, (P, "        if val is None and self.allow_None:\n            return\n\n        if not len(val) == length:", "        if self.allow_None and val is None:\n            return\n\n        if len(val) != length:"))
+V("C01", "update_skips_equal_values", "fire", "R01.u", (Z, """                    raise ValueError(f"{k!r} is not a parameter of {self_.cls.__name__}")
+                setattr(self_or_cls, k, v)""", """                    raise ValueError(f"{k!r} is not a parameter of {self_.cls.__name__}")
+                if k in restore and Comparator.is_equal(restore[k], v):
+                    continue
+                setattr(self_or_cls, k, v)"""))
+V("C02", "composite_post_setter_rejects", "fire", "R02.p", (P, """    def _post_setter(self, obj, val):
+        if obj is None:
+            for a, v in zip(self.attribs, val):""", """    def _post_setter(self, obj, val):
+        if len(val) != len(self.attribs):
+            raise ValueError("wrong number of values")
+        if obj is None:
+            for a, v in zip(self.attribs, val):"""))
+V("C03", "identical_slot_value_not_announced", "fire", "R03.v", (Z, "        if has_watcher and old is not NotImplemented:", "        if has_watcher and old is not NotImplemented and old is not value:"))
+V("C03", "benign_slot_sentinel_renamed", "benign", None, (Z, """        old = getattr(self, attribute, NotImplemented)
+        if is_slot:""", """        unset = NotImplemented
+        old = getattr(self, attribute, unset)
+        if is_slot:"""), (Z, "        if has_watcher and old is not NotImplemented:", "        if has_watcher and old is not unset:"))
+V("C03", "watch_values_drops_queued", "fire", "R03.w", (Z, """                          mode='kwargs', onlychanged=onlychanged,
+                          parameter_names=parameter_names, what=what,
+                          queued=queued, precedence=precedence)""", """                          mode='kwargs', onlychanged=onlychanged,
+                          parameter_names=parameter_names, what=what,
+                          queued=False, precedence=precedence)"""))
+V("C03", "watch_drops_onlychanged", "fire", "R03.w", (Z, "        watcher = Watcher(inst=self_.self, cls=self_.cls, fn=fn, mode='args',\n                          onlychanged=onlychanged,", "        watcher = Watcher(inst=self_.self, cls=self_.cls, fn=fn, mode='args',\n                          onlychanged=True,"))
+V("C04", "pending_equal_event_not_queued_again", "fire", "R04.s", (Z, """        # Copy watchers here since they may be modified inplace during iteration
+        for watcher in sorted(watchers, key=lambda w: w.precedence):
+            obj.param._call_watcher(watcher, event)""", """        if obj.param._BATCH_WATCH and event in obj.param._events:
+            return
+        # Copy watchers here since they may be modified inplace during iteration
+        for watcher in sorted(watchers, key=lambda w: w.precedence):
+            obj.param._call_watcher(watcher, event)"""))
+V("C07", "setter_rebinds_only_for_parameterized_values", "fire", "R07.s", (Z, """                return
+            obj.param._update_deps(name)
+""", """                return
+            if val is not None:
+                obj.param._update_deps(name)
+"""))
+V("C07", "benign_partial_resolution_one_step_then_recursion", "benign", None, (Z, "                    while sub_src is None and subpath:\n                        subpath = subpath[:-1]", "                    if sub_src is None and subpath:\n                        subpath = subpath[:-1]"))
+V("C08", "constant_sources_resolved_once", "fire", "R08.v", (Z, """            value = None
+        return ref, deps, value, is_async""", """            value = None
+        elif deps and all(dep.constant for dep in deps):
+            return None, None, value, False
+        return ref, deps, value, is_async"""))
+V("C09", "rx_value_setter_keeps_callers_object", "fire", "R09.v", (R, "        self._reactive._wrapper.object = resolve_value(new)", "        self._reactive._wrapper.object = new"))
+V("C09", "benign_rx_value_setter_local", "benign", None, (R, "        self._reactive._wrapper.object = resolve_value(new)", "        resolved = resolve_value(new)\n        self._reactive._wrapper.object = resolved"))
+V("C10", "async_link_not_restarted_while_syncing", "fire", "R10.s", (Z, """                continue
+
+            try:
+                new_val = resolve_value(ref, recursive)""", """                continue
+            if is_async and pname in self_.self._param__private.syncing:
+                continue
+
+            try:
+                new_val = resolve_value(ref, recursive)"""))
+V("C11", "selector_allow_none_left_undefined", "fire", "R11.d", (P, """        if allow_None is Undefined:
+            self.allow_None = self._slot_defaults['allow_None']
+        else:
+            self.allow_None = allow_None
+        if self.default is not None:
+            self._validate_value(self.default)""", """        self.allow_None = allow_None
+        if self.default is not None:
+            self._validate_value(self.default)"""))
+V("C11", "benign_selector_allow_none_branches_swapped", "benign", None, (P, """        if allow_None is Undefined:
+            self.allow_None = self._slot_defaults['allow_None']
+        else:
+            self.allow_None = allow_None
+        if self.default is not None:
+            self._validate_value(self.default)""", """        if allow_None is not Undefined:
+            self.allow_None = allow_None
+        else:
+            self.allow_None = self._slot_defaults['allow_None']
+        if self.default is not None:
+            self._validate_value(self.default)"""))
+V("C12", "self_or_cls_by_truthiness", "fire", "R12.v", (Z, "        return self_.cls if self_.self is None else self_.self", "        return self_.self or self_.cls"))
+V("C12", "benign_self_or_cls_positive_test", "benign", None, (Z, "        return self_.cls if self_.self is None else self_.self", "        return self_.self if self_.self is not None else self_.cls"))
+V("C12", "set_default_through_parameter_set", "fire", "R12.w", (Z, "        cls = self_.cls\n        setattr(cls,param_name,value)", "        self_.cls.param[param_name].__set__(None, value)"))
+V("C13", "namespace_attribute_memoised", "fire", "R13.i", (Z, "        if attr in self_._cls_parameters:\n            return self_.__getitem__(attr)", "        if attr in self_._cls_parameters:\n            p = self_.__dict__[attr] = self_.__getitem__(attr)\n            return p"))
+V("C13", "descendents_from_primary_base_only", "fire", "R13.j", ("param/_utils.py", "            if b not in q and b not in out:\n                q.append(b)", "            if b.__base__ is x:\n                q.append(b)"))
+V("C13", "benign_descendents_truthiness_loop", "benign", None, ("param/_utils.py", "    while len(q):\n        x = q.pop(0)", "    while q:\n        x = q.pop(0)"))
+V("C14", "getitem_instance_by_truthiness", "fire", "R14.v", (Z, "        inst = self_.self\n        if inst is None:\n            return self_._cls_parameters[key]", "        inst = self_.self\n        if not inst:\n            return self_._cls_parameters[key]"))
+V("C16", "computed_default_not_added_to_objects", "fire", "R16.s", (P, "            self.default = self.compute_default_fn()\n            self._ensure_value_is_in_objects(self.default)", "            self.default = self.compute_default_fn()\n            self._update_state()"))
+V("C18", "computed_default_not_added_to_objects", "fire", "R18.s", (P, "            self.default = self.compute_default_fn()\n            self._ensure_value_is_in_objects(self.default)", "            self.default = self.compute_default_fn()\n            self._update_state()"))
+V("C18", "benign_listselector_compute_default_uses_helper", "benign", None, (P, """            for o in self.default:
+                if o not in self.objects:
+                    self.objects.append(o)
+
+    def _validate(self, val):""", """            for o in self.default:
+                self._ensure_value_is_in_objects(o)
+
+    def _validate(self, val):"""))
+V("C18", "objects_setter_skips_equal_mapping", "fire", "R18.o", (P, """        if isinstance(objects, collections.abc.Mapping):
+            self.names = objects
+            self._objects = list(objects.values())""", """        if isinstance(objects, collections.abc.Mapping):
+            if objects and objects == getattr(self, 'names', None):
+                return
+            self.names = objects
+            self._objects = list(objects.values())"""))
+V("C18", "benign_objects_setter_comprehension", "benign", None, (P, "            self.names = objects\n            self._objects = list(objects.values())", "            self.names = objects\n            self._objects = [v for v in objects.values()]"))
+V("C19", "force_writes_value_without_time", "fire", "R19.w", (P, "            return self._produce_value(gen,force=True)\n        else:\n            return gen", "            value = gen._Dynamic_last = _produce_value(gen)\n            return value\n        else:\n            return gen"))
+V("C17", "produce_value_pins_clock_on_generator", "fire", "R17.w", (P, "        else:\n            time_fn = self.time_fn\n", "        else:\n            time_fn = gen._Dynamic_time_fn = self.time_fn\n"))
+V("C19", "time_fn_asked_of_the_class", "fire", "R19.t", (Z, "                if p._value_is_dynamic(*a):\n                    g = self_or_cls.param.get_value_generator(n)", "                if p._value_is_dynamic(None, self_.cls):\n                    g = self_or_cls.param.get_value_generator(n)"))
+V("C19", "benign_time_fn_args_inline", "benign", None, (Z, """        if isinstance(self_or_cls,type):
+            a = (None,self_or_cls)
+        else:
+            a = (self_or_cls,)
+""", """        a = (None,self_or_cls) if isinstance(self_or_cls,type) else (self_or_cls,)
+"""))
+V("C07", "partial_resolution_from_direct_parent_only", "fire", "R07.d", (Z, """                    sub_src = None
+                    subpath = path
+                    while sub_src is None and subpath:
+                        subpath = subpath[:-1]
+                        sub_src = _getattrr(self_.self_or_cls, '.'.join(subpath), None)
+                    if subpath:
+                        subdeps, _ = self_._spec_to_obj(
+                            '.'.join(path[:len(subpath)+1]), dynamic, intermediate)
+                        deps += subdeps""", """                    subpath = path[:-1]
+                    sub_src = _getattrr(self_.self_or_cls, '.'.join(subpath), None) if subpath else None
+                    if sub_src is not None:
+                        subdeps, _ = self_._spec_to_obj(
+                            '.'.join(path), dynamic, intermediate)
+                        deps += subdeps"""))
